@@ -20,6 +20,9 @@ type c02path struct {
 	Seq     []int `json:"seq"`            // publish events: publisher*3+qos
 	Size    int   `json:"payload_size"`
 	FailAt  int   `json:"log_write_fails_during_event"` // -1: never
+	// LateRelease: QoS 2 publishers answer PUBREC with PUBREL only 6 s later (a slow link): whether the broker still
+	// completes the handshake then is its choice, but a PUBCOMP is an acknowledgement like any other
+	LateRelease bool `json:"pubrel_sent_6s_after_pubrec,omitempty"`
 }
 
 func c02paths() []c02path {
@@ -57,7 +60,7 @@ func c02paths() []c02path {
 		}
 		for _, d := range depths {
 			for _, s := range seqs(d) {
-				out = append(out, c02path{v.p, v.s, s, 4, -1})
+				out = append(out, c02path{v.p, v.s, s, 4, -1, false})
 			}
 		}
 	}
@@ -67,8 +70,21 @@ func c02paths() []c02path {
 		for _, s := range seqs(d) {
 			for k := 0; k < d; k++ {
 				if s[k]%3 != 0 { // QoS 0 is never acknowledged
-					out = append(out, c02path{10, 9, s, 4, k})
+					out = append(out, c02path{10, 9, s, 4, k, false})
 				}
+			}
+		}
+	}
+	for _, d := range []int{1, 2} {
+		for _, s := range seqs(d) {
+			q2 := false
+			for _, e := range s {
+				if e%3 == 2 {
+					q2 = true
+				}
+			}
+			if q2 {
+				out = append(out, c02path{Prefill: 10, State: 9, Seq: s, Size: 4, FailAt: -1, LateRelease: true})
 			}
 		}
 	}
@@ -76,7 +92,7 @@ func c02paths() []c02path {
 	for _, size := range []int{1, 127, 128, 16383, 16384} {
 		for _, d := range []int{1, 2} {
 			for _, s := range seqs(d) {
-				out = append(out, c02path{0, -1, s, size, -1}, c02path{10, 9, s, size, -1})
+				out = append(out, c02path{0, -1, s, size, -1, false}, c02path{10, 9, s, size, -1, false})
 			}
 		}
 	}
@@ -90,9 +106,9 @@ func c02paths() []c02path {
 			}
 		}
 		if vk.Thorough() || p%7 == 0 || edge {
-			out = append(out, c02path{p, int64(p - 1), []int{1, 1, 1}, 4, -1})
+			out = append(out, c02path{p, int64(p - 1), []int{1, 1, 1}, 4, -1, false})
 			if vk.Thorough() && p%10 == 0 {
-				out = append(out, c02path{p, -1, []int{1, 1, 1}, 4, -1})
+				out = append(out, c02path{p, -1, []int{1, 1, 1}, 4, -1, false})
 			}
 		}
 	}
@@ -129,9 +145,27 @@ func TestC02Delivery(t *testing.T) {
 					c.Subscribe(1, q, "t/#")
 					subs = append(subs, c)
 				}
+				// a subscriber that reached its subscription through subscribe, unsubscribe, subscribe again (QoS 0 each time)
+				{
+					c := w.NewClient("sub-again", 1, AckAll)
+					if c.Connect(ConnectOpts{ClientID: c.Name, KeepAlive: 60}) != 0 {
+						rep.HarnessError("subscriber could not connect")
+						return
+					}
+					c.Subscribe(1, 0, "t/#")
+					w.Step()
+					c.Unsubscribe(2, "t/#")
+					w.Step()
+					c.Subscribe(3, 0, "t/#")
+					subs = append(subs, c)
+				}
 				pubs := []*Client{}
+				policy := AckAll
+				if p.LateRelease {
+					policy = AckNone
+				}
 				for k := 0; k < 2; k++ {
-					c := w.NewClient(fmt.Sprintf("pub%d", k+1), 1, AckAll)
+					c := w.NewClient(fmt.Sprintf("pub%d", k+1), 1, policy)
 					if c.Connect(ConnectOpts{ClientID: c.Name, KeepAlive: 60}) != 0 {
 						rep.HarnessError("publisher could not connect")
 						return
@@ -163,6 +197,13 @@ func TestC02Delivery(t *testing.T) {
 					if k == p.FailAt {
 						w.Idle(time.Second) // QoS 2: PUBREC -> PUBREL -> store attempt
 						w.FailLog(1, false)
+					}
+					if p.LateRelease && q == 2 {
+						w.Idle(6 * time.Second)
+						if pubc.Has(fmt.Sprintf("PUBREC(%d)", s.mid)) {
+							pubc.Send(&packet.PubRel{Header: &packet.Header{}, MessageId: s.mid})
+							w.Step()
+						}
 					}
 					Observe(w, rep)
 				}
